@@ -341,6 +341,83 @@ func c18r2(c *an.Ctx) {
 		}
 	}
 	c.Floor("terminal packet emissions", 1, n)
+	// ... and the helper puts its arguments into the frame it writes: the control bit, the kind, the payload, done
+	{
+		spl := c.Fn("drpcstream", "(*Stream).sendPacketLocked")
+		wapi := writerAPI(c)
+		var kindP, ctlP, dataP *ssa.Parameter
+		for _, prm := range spl.Params[1:] {
+			switch t := prm.Type().(type) {
+			case *types.Named:
+				if t.Obj().Name() == "Kind" {
+					kindP = prm
+				}
+			case *types.Basic:
+				if t.Kind() == types.Bool {
+					ctlP = prm
+				}
+			case *types.Slice:
+				dataP = prm
+			}
+		}
+		if kindP == nil || ctlP == nil || dataP == nil {
+			panic(&an.Unresolved{What: "the kind/control/payload parameters of " + an.ShortFunc(spl)})
+		}
+		// the value reaches the named field of a Frame: stored directly, or handed to a function of the package
+		// that stores its parameter there (newFrameLocked(kind, control) building the literal)
+		var reaches func(fn *ssa.Function, v ssa.Value, field string, depth int) bool
+		reaches = func(fn *ssa.Function, v ssa.Value, field string, depth int) bool {
+			if depth > 3 {
+				return false
+			}
+			found := false
+			an.Instrs(fn, func(in ssa.Instruction) {
+				switch x := in.(type) {
+				case *ssa.Store:
+					if fa, ok := x.Addr.(*ssa.FieldAddr); ok && x.Val == v {
+						if st, ok := deref(fa.X.Type()).Underlying().(*types.Struct); ok && st.NumFields() > fa.Field {
+							if nt, ok := deref(fa.X.Type()).(*types.Named); ok && nt.Obj().Name() == "Frame" && st.Field(fa.Field).Name() == field {
+								found = true
+							}
+						}
+					}
+				case ssa.CallInstruction:
+					callee := x.Common().StaticCallee()
+					if callee == nil || callee.Pkg != fn.Pkg || len(callee.Blocks) == 0 {
+						return
+					}
+					for i, a := range x.Common().Args {
+						if a == v && i < len(callee.Params) && reaches(callee, callee.Params[i], field, depth+1) {
+							found = true
+						}
+					}
+				}
+			})
+			return found
+		}
+		emitted, doneTrue := false, false
+		an.Instrs(spl, func(in ssa.Instruction) {
+			switch x := in.(type) {
+			case *ssa.Store:
+				if fa, ok := x.Addr.(*ssa.FieldAddr); ok {
+					if st, ok := deref(fa.X.Type()).Underlying().(*types.Struct); ok && st.NumFields() > fa.Field {
+						if nt, ok := deref(fa.X.Type()).(*types.Named); ok && nt.Obj().Name() == "Frame" && st.Field(fa.Field).Name() == "Done" {
+							if k, ok := x.Val.(*ssa.Const); ok && k.Value != nil && k.Value.String() == "true" {
+								doneTrue = true
+							}
+						}
+					}
+				}
+			case ssa.CallInstruction:
+				if wapi.emits(x.Common()) {
+					emitted = true
+				}
+			}
+		})
+		okFrame := emitted && doneTrue && reaches(spl, kindP, "Kind", 0) && reaches(spl, ctlP, "Control", 0) && reaches(spl, dataP, "Data", 0)
+		c.Check(okFrame, an.ShortFunc(spl)+" | the frame written carries the kind, control bit and payload it was given, and is marked done", c.P.Pos(spl.Pos()), "",
+			"the terminal-packet helper does not copy its control/kind/payload argument into the frame (or does not mark it done): a soft cancel goes out without the control bit (v0.0.17 answers with a protocol error), or the packet never completes")
+	}
 	// RawWrite kinds used by the client
 	rawWrite := a.obj("drpcstream", "(*Stream).RawWrite")
 	msgKind := kindConsts(c)["KindMessage"]
